@@ -1,8 +1,12 @@
 pub mod common;
 pub mod c01;
+pub mod c06;
+pub mod c13;
+pub mod c14;
+pub mod repair;
 
 use crate::runner::Prop;
 
 pub fn all() -> Vec<&'static dyn Prop> {
-    vec![&c01::C01]
+    vec![&c01::C01, &repair::C02, &repair::C05, &c06::C06, &c13::C13, &c14::C14]
 }
